@@ -53,7 +53,9 @@ pub fn gen(idx: u64, rng: &mut Rng, _tier: Tier) -> Scn {
             // (a receiver that starts on in-band OTI rebuilds the block structure from F, T and Z)
             len = rng.range(1, (blocks * b as u64 + 2) * e as u64) as usize;
         }
-        let mut o = ObjectSpec::basic(len.max(1), 0xC16 + idx * 7 + i as u64, i);
+        // (an empty object now and then: its lone packet may be seen before the FDT is complete)
+        let empty = !grid && rng.chance(0.08);
+        let mut o = ObjectSpec::basic(if empty { 0 } else { len.max(1) }, 0xC16 + idx * 7 + i as u64, i);
         o.oti = Some(OtiSpec::new(scheme, e, b, if scheme == Scheme::NoCode { 0 } else { 1 }, inband));
         o.inband_cenc = inband;
         if !grid && rng.chance(0.3) {
@@ -67,6 +69,14 @@ pub fn gen(idx: u64, rng: &mut Rng, _tier: Tier) -> Scn {
         ops.push(TimedOp { when: When::AtUs(0), op: Op::Add(i) });
     }
     ops.push(TimedOp { when: When::AtUs(0), op: Op::Publish });
+    if !grid && nobj > 1 && rng.chance(0.3) {
+        // one publication per object, all pending before the first read (for f in files { add; publish })
+        ops.clear();
+        for i in 0..nobj {
+            ops.push(TimedOp { when: When::AtUs(0), op: Op::Add(i) });
+            ops.push(TimedOp { when: When::AtUs(0), op: Op::Publish });
+        }
+    }
     let mut poll = PollSpec::simple(if grid { 1000 } else { rng.range(200, 3000) });
     poll.burst = if grid { Some(4) } else if rng.chance(0.5) { None } else { Some(rng.range(1, 6) as u32) };
     poll.max_pkts = 1500;
